@@ -350,7 +350,7 @@ def registration(prog, chk):
             ok = False
             how = ""
             # dominated by the Ok continuation of an evaluation/generation call
-            for (eb, et, ec) in body.call_sites(lambda c: c.path in EVALS or c.decl_path == "svgdx::transform::EventGen::generate_events"):
+            for (eb, et, ec) in body.call_sites(lambda c: c.path in EVALS or (c.decl_path == "svgdx::transform::EventGen::generate_events" or c.path.endswith(" as svgdx::transform::EventGen>::generate_events"))):
                 r = et["dest"][0]
                 brk = R.try_break_edges(body, r)
                 cont = None
@@ -394,7 +394,7 @@ def registration(prog, chk):
     # registration and evaluation of a tag happen in the same pass of the same loop
     pt = prog.body("svgdx::transform::process_tags")
     ups = pt.call_sites(R.path_is(UPD))
-    gens = pt.call_sites(lambda c: c.decl_path == "svgdx::transform::EventGen::generate_events")
+    gens = pt.call_sites(lambda c: (c.decl_path == "svgdx::transform::EventGen::generate_events" or c.path.endswith(" as svgdx::transform::EventGen>::generate_events")))
     ok = bool(ups) and bool(gens)
     for (ub, ut, uc) in ups:
         lu = R.loop_containing(pt, ub)
